@@ -176,6 +176,46 @@ class NArr(AList):
     __hash__ = object.__hash__
 
 
+class NView(NArr):
+    """A basic slice of a numpy array: a VIEW - it reads and writes the storage of its base array (numpy semantics), so a
+    later store into the base shows through every view taken earlier."""
+    __hash__ = object.__hash__
+
+    def __init__(self, base, start, stop):
+        list.__init__(self)
+        self.base, self.start, self.stop = base, start, stop
+
+    def _idx(self, i):
+        n = self.stop - self.start
+        if isinstance(i, int):
+            if i < 0:
+                i += n
+            if not 0 <= i < n:
+                raise IndexError(i)
+            return self.start + i
+        raise TypeError(i)
+
+    def __len__(self):
+        return self.stop - self.start
+
+    def __iter__(self):
+        return iter([self.base[k] for k in range(self.start, self.stop)])
+
+    def __getitem__(self, i):
+        if isinstance(i, slice):
+            a, b, st = i.indices(len(self))
+            if st != 1:
+                return NArr([self.base[self.start + k] for k in range(a, b, st)])
+            return NView(self.base, self.start + a, self.start + max(a, b))
+        return self.base[self._idx(i)]
+
+    def __setitem__(self, i, v):
+        self.base[self._idx(i)] = v
+
+    def __repr__(self):
+        return "NView(%r)" % (list(self),)
+
+
 class Obj:
     def __init__(self, cls, **fields):
         self.cls = cls
@@ -865,6 +905,12 @@ class Interp:
                 raise PathCrash("IndexError in %s" % ast.unparse(node))
         if isinstance(o, (AList, list, tuple, range)):
             if isinstance(i, slice):
+                if isinstance(o, NView):
+                    return o[i]
+                if isinstance(o, NArr):
+                    a, b, st = i.indices(len(o))
+                    if st == 1:
+                        return NView(o, a, max(a, b))       # basic slicing of an ndarray returns a view
                 r = list.__getitem__(o, i) if isinstance(o, list) else o[i]
                 if isinstance(o, NArr):
                     return NArr(r)
@@ -1114,6 +1160,13 @@ class Interp:
             return self.deepcopy(args[0])
         if n in ("copy.copy",):
             v = args[0]
+            if isinstance(v, Obj):
+                # shallow copy: a new object whose fields refer to the SAME values (lists and dicts are shared)
+                o2 = Obj(v.cls, **dict(v.f))
+                self.created.append(o2)
+                return o2
+            if isinstance(v, dict):
+                return dict(v)
             return AList(v) if isinstance(v, (AList, list)) else v
         if n in ("np.random.randint", "numpy.random.randint"):
             self.rng_calls.append((n, node))
